@@ -91,6 +91,20 @@ func runC16(p *core.Program, r *core.Report) {
 	inits := core.GlobalInits(p.Lib)
 	initFn := core.PackageInit(p.Lib)
 
+	// what a default recipe or a preset yields is read off its literal: that presupposes
+	// that generation is a function of the recipe's fields alone — no state carried over
+	// from earlier calls with other recipes (= C15 R15.1/R15.4 re-run for the character
+	// recipe's methods, which every preset goes through)
+	{
+		var entries []*ssa.Function
+		for _, m := range []string{"Generate", "Entropy", "Alphabet"} {
+			if f := p.Method("CharRecipe", m); f != nil {
+				entries = append(entries, f)
+			}
+		}
+		r.Borrow("R16.3", func() { checkNoSharedWrites(p, r, "R15", entries, 3) })
+	}
+
 	// ---- R16.1
 	flags := map[string]uint64{}
 	for name := range classDoc {
